@@ -198,6 +198,44 @@ pub fn c15_set_clone<const N: usize>() {
     vf::check(tok::balanced(), 302);
 }
 
+/// clone of a container of zero-sized entries: as many entries as the original, one Clone call per key, the original untouched
+pub static mut ZCLONES: usize = 0;
+pub struct ZK;
+impl PartialEq for ZK { #[inline(always)] fn eq(&self, _: &ZK) -> bool { false } }
+impl Clone for ZK { #[inline(always)] fn clone(&self) -> ZK { unsafe { ZCLONES += 1; } ZK } }
+pub fn c15_zst<const N: usize>() {
+    unsafe { ZCLONES = 0; }
+    let mut m: Map<ZK, (), N> = empty_map();
+    let mut s: Set<ZK, N> = empty_set();
+    let (n0, drop_one) = (vf::any_usize(), vf::any_bool());
+    vf::assume(n0 <= N);
+    let mut i = 0;
+    while i < N { if i < n0 { vf::check(m.insert(ZK, ()).is_none() && s.insert(ZK), 100); } i += 1; }
+    let mut first = drop_one;
+    m.retain(|_, _| { let k = !first; first = false; k });
+    let n = if drop_one && n0 > 0 { n0 - 1 } else { n0 };
+    vf::check(m.len() == n && s.len() == n0, 201);
+    let c = m.clone();
+    vf::check(unsafe { ZCLONES } == n, 1503);
+    let sc = s.clone();
+    vf::check(unsafe { ZCLONES } == n + n0, 1503);
+    vf::check(c.len() == n && sc.len() == n0 && c.capacity() == N, 1501);
+    let (mut t, mut ts) = (0usize, 0usize);
+    for _ in c.iter() { t += 1; }
+    for _ in sc.iter() { ts += 1; }
+    vf::check(t == n && ts == n0, 1501);
+    if n0 > 0 { vf::reach(1); } else { vf::reach(2); }
+    // independence: emptying the clone leaves the original alone and vice versa
+    let mut c = c;
+    c.clear();
+    vf::check(m.len() == n && c.is_empty(), 1504);
+    drop(m);
+    vf::check(sc.len() == n0, 1504);
+    let mut c2 = sc.clone();
+    c2.clone_from(&s);
+    vf::check(c2.len() == n0, 1501);
+}
+
 /// clone of a container whose element type has NO drop glue but an observable Clone: still one clone per element
 pub fn c15_clone_nodrop<const N: usize>() {
     use crate::tok::CTok;
@@ -420,6 +458,7 @@ pub fn c18_disjoint_unchecked<const N: usize, const J: usize>() {
 }
 
 harnesses! {
+    c15_zst: [1] [2] [3];
     c13_disjoint: [0, 0] [2, 0] [0, 2] [1, 1] [2, 1] [1, 2] [2, 2] [3, 2] [2, 3] [3, 3];
     c13_disjoint_tok: [1] [2] [3];
     c15_clone: [0] [1] [2] [3];
